@@ -92,6 +92,11 @@ def step (toks : List String) : Option (String × String) := do
       | [r] => showRef r
       | _ => "err"
     some (m, sp)
+  | "regrepo" :: rest =>
+    -- Registry.Repository(name): the name must be a repository of the grammar
+    let nm := (← kv rest "name")
+    let ans := fun (re : Re) => if re.accepts nm.toList then "ok:h:5|" ++ nm else "err"
+    some (ans Gen.repositoryRe, ans Spec.Grammar.repository)
   | "repo" :: rest =>
     let regok := (← kv rest "regok") == "1"
     let base ← parseBase (← kv rest "base")
